@@ -29,8 +29,8 @@ SUPPORT = {
     ("S", 2): ["L1", "L2", "L3", "D0", "D1", "CR", "PB"],
     ("S", 3): ["L1", "L2", "D0", "D1", "CR"],
     ("H", 1): ["L1", "L2", "L3", "D0", "B2", "HE", "HE", "BF"],
-    ("H", 2): ["L1", "L2", "L3", "D0", "B2"],
-    ("H", 3): ["L1", "L2", "L3", "D0", "B2"],
+    ("H", 2): ["L1", "L2", "L3", "D0", "B2", "CR", "D1"],
+    ("H", 3): ["L1", "L2", "L3", "D0", "B2", "CR", "CR", "D1"],
 }
 # families whose node functionals are exact in Q (point evaluations)
 INTERP_FAMS = {"L1", "L2", "L3", "D0", "D1", "CR", "PB", "HE"}
@@ -51,8 +51,25 @@ CAPS = {"L1": 27, "L2": 63, "L3": 63, "PB": 63, "B2": 63, "CR": 27, "D1": 27, "D
 EVCFG_MASKS = [1, 2, 3, 4, 5, 6, 7, 8, 16, 24, 32, 40, 48, 56, 17, 12, 34, 63]
 
 
-def masks_of(fam):
-    return [mk for mk in EVCFG_MASKS if mk & CAPS[fam] == mk]
+# non-parametric evaluators (hypercubes): Rannacher-Turek (facet integral means with a 2-point Gauss rule: irrational
+# points / facet areas -> at Q exact only up to the rational square root, tolerance 1e-9) and discontinuous P1
+NONPARAM_H = {"CR", "D1"}
+APPROX = {("CR", "H")}
+
+
+def caps_of(fam, kind):
+    return 3 if (kind == "H" and fam in NONPARAM_H) else CAPS[fam]
+
+
+def masks_of(fam, kind="S"):
+    return [mk for mk in EVCFG_MASKS if mk & caps_of(fam, kind) == mk]
+
+
+def close(a, b, fam, kind):
+    """equality, or |a - b| <= 1e-9 (1 + |b|) for the evaluators that contain a rational square root at Q"""
+    if (fam, kind) in APPROX:
+        return abs(a - b) <= Fr(1, 10 ** 9) * (1 + abs(b))
+    return a == b
 
 
 def mask_width(mask, dim):
@@ -183,6 +200,31 @@ def vertex_points(kind, dim):
     return " ".join(fmt_pt(v) for v in M.ref_vertices(kind, dim))
 
 
+def nfdual_ok(fam, kind):
+    """nfdual needs the basis function at arbitrary real points: non-parametric evaluators, or affine (simplex) cells"""
+    if fam in ("HE", "BF", "B2"):
+        return False
+    return kind == "S" or fam in NONPARAM_H or fam == "D0"
+
+
+def displaced_cube_meshes():
+    """(c) regression meshes: the unit cube with vertex 7 moved (three trapezoid / twisted faces), and a 2x2x2 refined
+    cube whose 27 vertices are displaced individually"""
+    vs = [(Fr(i & 1), Fr((i >> 1) & 1), Fr((i >> 2) & 1)) for i in range(8)]
+    vs[7] = (Fr(3, 2), Fr(5, 4), Fr(4, 3))
+    m1 = M.Mesh("H", 3, vs, [tuple(range(8))])
+    m1.deduce(None)
+    rng = random.Random(777)
+    for _ in range(50):
+        coords, cells = M.grid_mesh(rng, "H", 3, (2, 2, 2), "general")
+        if all(M.cell_ok("H", 3, [coords[v] for v in cl]) for cl in cells):
+            break
+    cells = [tuple(cl[k] for k in rng.choice(M.sym("H", 3))) for cl in cells]
+    m2 = M.Mesh("H", 3, coords, cells)
+    m2.deduce(rng)
+    return m1, m2
+
+
 def gen_deriv_case(rng):
     """Hermite-3 / Bogner-Fox-Schmit: 1-D meshes with intervals of both orientations and non-uniform sizes (the
     generator lists the two vertices of every interval in random order), arbitrary cells in 2-D"""
@@ -203,7 +245,7 @@ def gen_deriv_case(rng):
         return "evpts %s %s %d %d %s" % (fam, m.fmt(), c, len(M.ref_vertices(kind, dim)), vertex_points(kind, dim))
     if r < 0.5:
         return "evcfg %s %s %d %s %d %d" % (fam, m.fmt(), c, fmt_pt(rand_interior_point(rng, kind, dim)),
-                                           rng.choice(masks_of(fam)), rng.choice([255, 0]))
+                                           rng.choice(masks_of(fam, kind)), rng.choice([255, 0]))
     if fam == "HE" and dim == 2 and r < 0.8:
         # 2-D Hermite-3: the vertex coefficients of the interpolant are (f, df/dx, df/dy) at the vertex (oracle only)
         return "interp %s %s %s 0" % (fam, m.fmt(), fmt_poly(rand_poly(rng, 2, 3, nterms=6)))
@@ -250,7 +292,7 @@ def gen_case(rng, tier):
         else:
             c = rng.randrange(nc)
         return "evcfg %s %s %d %s %d %d" % (fam, m.fmt(), c, fmt_pt(rand_interior_point(rng, kind, dim)),
-                                           rng.choice(masks_of(fam)), rng.choice([255, 0]))
+                                           rng.choice(masks_of(fam, kind)), rng.choice([255, 0]))
     if r < 0.38:
         if kind == "H" and dim > 1 and rng.random() < 0.6:
             m = nonaffine_mesh(rng, kind, dim, 2)
@@ -261,12 +303,18 @@ def gen_case(rng, tier):
                                           2 * rng.randint(1, 63), rng.choice([255, 0]))
     if r < 0.385:
         return "vol - %s" % m.fmt()
+    if r < 0.43 and nfdual_ok(fam, kind):
+        # the real node functionals applied to the real basis functions; 3-D hypercubes: individually displaced
+        # vertices (trapezoid and twisted faces)
+        if kind == "H" and dim >= 2:
+            m = nonaffine_mesh(rng, kind, dim, 3 if dim == 3 else 4)
+        return "nfdual %s %s %d" % (fam, m.fmt(), rng.randrange(m.num(dim)))
     if r < 0.46:
         return "dofs %s %s" % (fam, m.fmt())
     if r < 0.62:
         c = rng.randrange(nc)
         return "ev %s %s %d %s" % (fam, m.fmt(), c, fmt_pt(rand_ref_point(rng, kind, dim)))
-    if r < 0.68 and fam != "D0":
+    if r < 0.68 and caps_of(fam, kind) & 8:
         c = rng.randrange(nc)
         pts = [rand_ref_point(rng, kind, dim, inside=False) for _ in range(2)]
         return "ref %s %s %d %d %s" % (fam, m.fmt(), c, len(pts), " ".join(fmt_pt(p) for p in pts))
@@ -329,10 +377,14 @@ def fixed_cases():
             m = nonaffine_mesh(rng, kind, dim, 2)
             out.append("caps %s %s" % (fam, m.fmt()))
             x = rand_interior_point(rng, kind, dim)
-            for k, mk in enumerate(masks_of(fam)):
+            for k, mk in enumerate(masks_of(fam, kind)):
                 if fam == "L3" and dim == 3 and mk not in (2, 4, 6, 16, 32, 63):
                     continue
                 out.append("evcfg %s %s 0 %s %d %d" % (fam, m.fmt(), fmt_pt(x), mk, 255 if k % 2 == 0 else 0))
+        for fam in fams:
+            if nfdual_ok(fam, kind):
+                m = nonaffine_mesh(rng, kind, dim, 2)
+                out.append("nfdual %s %s %d" % (fam, m.fmt(), rng.randrange(m.num(dim))))
         m = nonaffine_mesh(rng, kind, dim, 2)
         x = rand_interior_point(rng, kind, dim)
         for k, mk in enumerate([2, 4, 8, 16, 32, 64, 24, 48, 96, 80, 126]):
@@ -383,6 +435,27 @@ def _hermite_corpus():
 
 HERMITE_CORPUS = _hermite_corpus()
 
+
+def _facet_mean_corpus():
+    """facet-mean / moment elements on hexahedra with non-parallelogram faces: duality with the real node functionals and
+    reproduction of all linear polynomials"""
+    out = []
+    m1, m2 = displaced_cube_meshes()
+    lin = [{(0, 0, 0): Fr(1)}, {(1, 0, 0): Fr(1)}, {(0, 1, 0): Fr(1)}, {(0, 0, 1): Fr(1)},
+           {(0, 0, 0): Fr(1, 3), (1, 0, 0): Fr(2), (0, 1, 0): Fr(-1), (0, 0, 1): Fr(1, 2)}]
+    for m, cells in ((m1, [0]), (m2, [0, 5])):
+        for fam in ("CR", "D1", "D0"):
+            for c in cells:
+                out.append("nfdual %s %s %d" % (fam, m.fmt(), c))
+            for p in (lin if fam != "D0" else lin[:1]):
+                qs = [(c, x) for c in cells for x in ((Fr(1, 5), Fr(-1, 3), Fr(1, 2)), (Fr(0), Fr(0), Fr(0)))]
+                out.append("interp %s %s %s %d %s" % (fam, m.fmt(), fmt_poly(p), len(qs),
+                                                      " ".join("%d %s" % (c, fmt_pt(x)) for c, x in qs)))
+    return out
+
+
+FACET_MEAN_CORPUS = _facet_mean_corpus()
+
 CORPUS = [
     # replayed first on every run.  No input has failed on the unchanged tree so far; these are the inputs tied to
     # FINDINGS_C15.md (discontinuous P1 on simplices: capabilities not advertised, values/gradients must be right)
@@ -390,7 +463,7 @@ CORPUS = [
     "interp D1 S 2 3 0/1 0/1 1/1 0/1 0/1 1/1 3 0 1 1 2 2 0 1 0 1 2 1 2 0 2 1/2 0 0 3/1 1 0 1 0 1/3 1/3",
     # reference triangle with all three edges stored against the cell's local direction (Lagrange-3 edge DOFs)
     "interp L3 S 2 3 0/1 0/1 1/1 0/1 0/1 1/1 3 1 0 2 1 0 2 1 0 1 2 1 2 0 3 1/1 3 0 -2/1 1 2 1/3 0 3 2 0 1/4 1/2 0 1/5 1/5",
-] + HERMITE_CORPUS
+] + HERMITE_CORPUS + FACET_MEAN_CORPUS
 
 
 # ---------------------------------------------------------------------------------------------
@@ -653,10 +726,23 @@ def oracle_(case, out):
     if c.op == "caps":
         assert o[0] == "K"
         adv, dl = int(o[1]), int(o[2])
-        if dl != CAPS[fam]:
-            return "evaluator of %s implements the tags %d, expected %d" % (fam, dl, CAPS[fam])
+        if dl != caps_of(fam, kind):
+            return "evaluator of %s implements the tags %d, expected %d" % (fam, dl, caps_of(fam, kind))
         if adv & dl != dl:
             return "advertised eval_caps %d do not include what the evaluator delivers (%d)" % (adv, dl)
+        return None
+    if c.op == "nfdual":
+        assert o[0] == "M"
+        nl = int(o[1])
+        vals = [M.pfr(t) for t in o[2:]]
+        if len(vals) != nl * nl:
+            return "malformed nfdual output"
+        for j in range(nl):
+            for i in range(nl):
+                exp = Fr(1) if i == j else Fr(0)
+                if not close(vals[j * nl + i], exp, fam, kind):
+                    return ("node functional %d applied to local basis function %d of cell %s gives %s, expected %s: the "
+                            "node functionals are not dual to the basis" % (i, j, c.rest[0], float(vals[j * nl + i]), exp))
         return None
     if c.op == "evpts":
         cell = int(c.rest[0])
@@ -705,8 +791,8 @@ def oracle_(case, out):
         p = 3 + nl * w
         assert o[p] == "F"
         fullm = int(o[p + 1])
-        if fullm != CAPS[fam]:
-            return "full mask %d, expected %d" % (fullm, CAPS[fam])
+        if fullm != caps_of(fam, kind):
+            return "full mask %d, expected %d" % (fullm, caps_of(fam, kind))
         fw = mask_width(fullm, dim)
         full = [M.pfr(t) for t in o[p + 2:p + 2 + nl * fw]]
         if len(full) != nl * fw or len(r) != nl * w:
@@ -836,7 +922,8 @@ def oracle_(case, out):
             if sorted(exp) != sorted(tuple(r) for r in rows):
                 return ("the set of (value, gradient, Hessian) tuples is not that of the nodal basis of %s_%d "
                         "differentiated exactly" % ("P" if kind == "S" else "Q", LAGRANGE_DEG[fam]))
-        if fam in ("L1", "L2", "L3", "D0", "D1", "CR", "B2"):
+        # (discontinuous P1 on hypercubes uses the monomial basis 1, x, y(, z) of the linearised cell: no partition of unity)
+        if fam in ("L1", "L2", "L3", "D0", "D1", "CR", "B2") and not (fam == "D1" and kind == "H"):
             tot = [sum((r[k] for r in rows), Fr(0)) for k in range(ncomp)]
             if tot != [Fr(1)] + [Fr(0)] * (ncomp - 1):
                 return "the basis functions do not sum to 1 with vanishing derivative sums"
@@ -904,16 +991,16 @@ def oracle_(case, out):
             if img != M.map_point(kind, dim, verts, x):
                 return "map_point differs from the (multi)linear interpolation of the cell vertices"
             if deg <= REPRO_DEG[fam]:
-                if v != p_eval(p, img):
+                if not close(v, p_eval(p, img), fam, kind):
                     return "interpolant of a polynomial of degree %d differs from it at cell %d point %s: %s vs %s" % (
                         deg, ci, [str(z) for z in x], v, p_eval(p, img))
                 gp = [p_deriv(p, k) for k in range(dim)]
-                if hg and list(g) != [p_eval(gk, img) for gk in gp]:
+                if hg and not all(close(a_, b_, fam, kind) for a_, b_ in zip(g, [p_eval(gk, img) for gk in gp])):
                     return "gradient of the interpolant of a polynomial of degree %d differs from its gradient (cell %d)" % (deg, ci)
                 if hh and list(h) != [p_eval(p_deriv(gp[a], b), img) for a in range(dim) for b in range(dim)]:
                     return "Hessian of the interpolant of a polynomial of degree %d differs from its Hessian (cell %d)" % (deg, ci)
         # (c) continuity across facets: equal physical points in different cells give equal values
-        if fam in H1_CONFORMING or fam == "CR":
+        if fam in H1_CONFORMING or (fam == "CR" and kind == "S"):
             bary = set()
             if fam == "CR":
                 for fc in range(m.num(dim - 1)):
@@ -955,14 +1042,14 @@ def nontrivial(case):
     """non-trivial = a re-oriented entity (stored orientation differs from the cell's local one) on a mesh for an
     element with DOFs on edges/faces, or a non-affine cell, or >= 2 cells; trafo ops: always"""
     t = case.split(None, 2)
-    if t[0] in ("vol", "volq", "newton", "unmap", "caps", "evpts"):
+    if t[0] in ("vol", "volq", "newton", "unmap", "caps", "evpts", "nfdual"):
         return True
     c = parse_case(case)
     m = c.mesh
     if t[0] in ("evcfg", "trcfg"):
         # a proper sub-mask, or a non-affine cell
         mask = int(c.rest[1 + m.dim])
-        full = CAPS.get(c.fam, 126)
+        full = caps_of(c.fam, m.kind) if c.fam in CAPS else 126
         return mask != full or (m.kind == "H" and m.dim > 1)
     if m.dim == 1:
         return m.num(1) >= 2
@@ -1011,9 +1098,10 @@ def signature(case, out, why):
 
 
 def model_covers(case):
-    """ops without a Lean model: unmap (double precision); Hermite-3 / Bogner-Fox-Schmit in 2-D (oracle only)"""
+    """ops without a Lean model: unmap (double precision), nfdual (the real node functionals applied to the real basis:
+    judged by the oracle); Hermite-3 / Bogner-Fox-Schmit in 2-D (oracle only)"""
     t = case.split(None, 4)
-    if t[0] == "unmap":
+    if t[0] in ("unmap", "nfdual"):
         return False
     if t[1] in DERIV_FAMS and t[3] != "1":
         return False
@@ -1106,7 +1194,11 @@ def main(argv):
         "quadrilaterals/triangles, Bogner-Fox-Schmit on quadrilaterals) covered by the harness and the oracle only "
         "(duality of the vertex functionals value, d/dx, d/dy with the basis on arbitrary cells, vertex coefficients of "
         "the interpolant, config masks); Argyris is not instantiated (21x21 inverse with normalised normals)",
-                "Lagrange-3 on tetrahedra, the non-parametric Rannacher-Turek / discontinuous-P1-on-hypercube evaluators and the "
+                "Rannacher-Turek on quadrilaterals / hexahedra contains square roots (facet areas, Gauss coordinate): at Q they are "
+        "the deterministic rational Proto.qsqrt / q_sqrt, the model reproduces the outputs exactly; the evaluator uses "
+        "sqrt(1/3), the cubature rule of the node functional the double constant, so duality / reproduction hold up to "
+        "1e-12 at Q (oracle tolerance 1e-9)",
+        "Lagrange-3 on tetrahedra, the Q1~-bnp element and the "
         "Bernstein-2 node functionals are not instantiable exactly at Q (constexpr scalar constants / irrational Gauss "
         "points): not covered"],
         extra_cov={"rule": rule, "generated_tables": sorted("%s/%s%d" % k for k in tables)})
